@@ -47,7 +47,7 @@ FIX = "import pytest\n\n@pytest.fixture\ndef %s():\n    return 1\n"
 
 def gen_scenario(rng, i):
     sc = conc.Scenario("s%d" % i)
-    kind = ["lastdef", "reanalyze", "scan", "editscan", "reanalyze3", "reanalyze", "scan3", "lastdef2", "window"][i % 9]
+    kind = ["lastdef", "reanalyze", "scan", "editscan", "reanalyze3", "reanalyze", "scan3", "lastdef2", "window", "then-reanalyze"][i % 10]
     files = ["test_a.py", "test_b.py", "conftest.py"]
     sc.meta["kind"] = kind
     if kind == "lastdef":
@@ -65,6 +65,18 @@ def gen_scenario(rng, i):
         for f, t in (("conftest.py", c1), ("test_b.py", t1)):
             sc.disk.append((f, sc.text(t))); sc.setup.append(["analyze", f, sc.text(t)])
         sc.threads = {1: [["analyze", "conftest.py", sc.text(c2)]], 2: [["analyze", "test_b.py", sc.text(t2)]]}
+    elif kind == "then-reanalyze":
+        # two scan workers visit files that use the same fixtures several times (their entries in the per-name lists
+        # may interleave); afterwards one of the files is edited: the OTHER file's usages must all still be there
+        a1 = "def test_a1(foo, bar):\n    pass\n\ndef test_a2(foo):\n    pass\n\ndef test_a3(bar, foo):\n    pass\n"
+        b1 = "def test_b1(foo):\n    pass\n\ndef test_b2(bar, foo):\n    pass\n\ndef test_b3(foo):\n    pass\n"
+        a2 = "def test_a1(foo):\n    pass\n"
+        c1 = FIX % "foo" + "\n@pytest.fixture\ndef bar():\n    return 2\n"
+        for f, t in (("conftest.py", c1), ("test_a.py", a1), ("test_b.py", b1)):
+            sc.disk.append((f, sc.text(t)))
+        sc.setup.append(["analyze", "conftest.py", sc.text(c1)])
+        sc.threads = {1: [["fresh", "test_a.py", sc.text(a1)]], 2: [["fresh", "test_b.py", sc.text(b1)]]}
+        sc.after = [["analyze", "test_a.py", sc.text(a2)]]
     elif kind == "lastdef2":
         # the same window on the usage index: A's only usage of bar goes away while B starts using bar
         a1, a2 = "def test_a(bar):\n    pass\n", "def test_a():\n    pass\n"
@@ -130,7 +142,7 @@ def run(tier, seed):
         r.broken.append("cargo build of the concurrency harness (instrumented dashmap) failed: " + log[-400:])
         return r.finish(RULE)
     v = r.verdict
-    nsc = 9 if tier == "quick" else 54
+    nsc = 10 if tier == "quick" else 60
     scs = [gen_scenario(r.rng, i) for i in range(nsc)]
     # pass 1: sequential orders, the state before, and the operation program of every worker alone
     for sc in scs:
@@ -242,6 +254,16 @@ def run(tier, seed):
                     msg = (f"{where}: the resulting index is that of no sequential order of the same analyses — "
                            + ("; ".join(diff) if diff else "the combination of maps matches no single order")[:900])
                     v.violation(f"{sc.name}-{nruns}", msg, f"# {msg}\n# operations: {' '.join(ops)}\n" + sc.replay_text("run " + rdir))
+            # (2b) … and after the sequential operations that follow the concurrent part
+            if sc.after and d.get("after") not in (None, "-"):
+                ca = conc.canon(d["after"], secs)
+                seq_after = [conc.canon(q["after"], secs) for (_, q) in seqs if q.get("after") not in (None, "-")]
+                if seq_after and ca not in seq_after:
+                    diff = [f"{s_}: {ca.get(s_)} vs sequential {[q.get(s_) for q in seq_after]}" for s_ in secs
+                            if all(ca.get(s_) != q.get(s_) for q in seq_after)]
+                    msg = (f"{where}: after the edit that follows ({' '.join(sc.after[0][:2])}) the index is that of no sequential order "
+                           f"of the same analyses — " + "; ".join(diff)[:900])
+                    v.violation(f"{sc.name}-{nruns}-after", msg, f"# {msg}\n# operations: {' '.join(ops)}\n" + sc.replay_text("run " + rdir))
             # (3) Lean replay
             final = conc.parse_dump(d["dump"])
             for mp, sec in (("definitions", "defs"), ("usage_by_fixture", "ubf")):
